@@ -208,6 +208,64 @@ def tf_sort_methods(root):
     _rewrite_all(root, _SortMethods)
 
 
+_JUMP = (ast.Return, ast.Raise, ast.Continue, ast.Break)
+
+
+class _ElseAfterJump(ast.NodeTransformer):
+    """`if c: ...; return` followed by statements -> `if c: ...; return` `else:` statements."""
+
+    def _fix(self, body):
+        out = []
+        for i, s in enumerate(body):
+            if isinstance(s, ast.If) and not s.orelse and s.body and isinstance(s.body[-1], _JUMP) and i + 1 < len(body):
+                s.orelse = self._fix(body[i + 1:])
+                out.append(s)
+                return out
+            out.append(s)
+        return out
+
+    def generic_visit(self, node):
+        super().generic_visit(node)
+        for f in ('body', 'orelse', 'finalbody'):
+            b = getattr(node, f, None)
+            if isinstance(b, list) and b and isinstance(b[0], ast.stmt):
+                setattr(node, f, self._fix(b))
+        return node
+
+
+class _NoElseAfterJump(ast.NodeTransformer):
+    """`if c: ...; return` `else:` rest -> `if c: ...; return`; rest  (pylint's no-else-return / -raise / -continue)."""
+
+    def _fix(self, body):
+        out = []
+        for s in body:
+            if isinstance(s, ast.If) and s.orelse and s.body and isinstance(s.body[-1], _JUMP) and \
+                    not (len(s.orelse) == 1 and isinstance(s.orelse[0], ast.If)):
+                rest = s.orelse
+                s.orelse = []
+                out.append(s)
+                out.extend(rest)
+            else:
+                out.append(s)
+        return out
+
+    def generic_visit(self, node):
+        super().generic_visit(node)
+        for f in ('body', 'orelse', 'finalbody'):
+            b = getattr(node, f, None)
+            if isinstance(b, list) and b and isinstance(b[0], ast.stmt):
+                setattr(node, f, self._fix(b))
+        return node
+
+
+def tf_else_after_jump(root):
+    _rewrite_all(root, _ElseAfterJump)
+
+
+def tf_no_else_after_jump(root):
+    _rewrite_all(root, _NoElseAfterJump)
+
+
 class _AddLog(ast.NodeTransformer):
     def visit_If(self, node):
         self.generic_visit(node)
@@ -253,6 +311,8 @@ T('S-expand-aug', tf_expand_aug)
 T('S-swap-if', tf_swap_if)
 T('S-format-messages', tf_format_messages)
 T('S-sort-methods', tf_sort_methods)
+T('S-else-after-jump', tf_else_after_jump)
+T('S-no-else-after-jump', tf_no_else_after_jump)
 T('S-add-log', tf_add_log)
 T('S-respell', tf_respell_literals)
 
